@@ -839,6 +839,8 @@ func main() {
 			"some with wrong nonce, fee cap below base fee, tip above fee cap, insufficient funds, too little gas) from 4 EOAs against 2-4 contracts whose programs (grammar of family c27 plus ether-specific statements) " +
 			"move value by CALL to EOAs / contracts / fresh addresses, CREATE / CREATE2 with endowment whose init code self-destructs to itself / to another account / to a fresh account or deploys a self-destructing runtime, " +
 			"SELFDESTRUCT to self / other / fresh account, value transfer followed by REVERT, value sent to an account that self-destructed earlier in the same transaction; random base fee (incl. 0), tips, blob base fee; 0-3 withdrawals. " +
+			"Life-cycle stream: a contract created in transaction A by an EOA or a factory contract (constructor with / without SSTORE, with / without endowment) executes SELFDESTRUCT (to itself / an existing / a fresh account) in its constructor, later in A, in a later transaction B of the same block or in the next block (optional block split: commit, reopen, new EVM and gas pool) and is called again with value (systematic and random); in the random stream later transactions also target contracts born earlier in the block and a quarter of the multi-transaction cases span two blocks. " +
+			"EIP-6780 oracle (Cancun+): an account that had code when a transaction started keeps that code; ether is destroyed only in a transaction in which a contract created in that transaction executed SELFDESTRUCT; under Amsterdam no ether is destroyed. " +
 			"Model comparison under Cancun / Prague / Osaka: per transaction rejection class or (failed?, gas used), sum of balances before and after, wei minted, fees burnt (from the receipts), ether destroyed (implementation: total_pre + minted - burnt - total_post; model: Ether.loop_destroyed from its definition) and (address, balance, nonce) of every account. " +
 			"Oracle under all 16 rule sets Frontier..Bogota (beyond Cancun/Prague/Osaka the oracle alone decides): per transaction, from the OnBalanceChange hook by reason, sender pays exactly gas limit * price + blob fee up front, gets back (gas limit - gas used) * price, coinbase receives gas used * tip; " +
 			"the sum of balances over all observed accounts drops by exactly gas used * base fee + blob fee + destroyed with destroyed >= 0 and = 0 when no SELFDESTRUCT ran; a rejected transaction moves nothing; withdrawals mint amount * 10^9; block equation total' = total + minted - burnt - destroyed; " +
